@@ -68,9 +68,6 @@ class C11(Prop):
         g = Gen(rng, long=(i % 2 == 0))
         case = g.case()
         pre = [o for o in case["ops"] if o[0] != "clone"]
-        # no 1-argument setdefault here (F-C06d ends the history before the clone)
-        pre = [o for o in pre if not ((o[2] if o[0] == "via" else o)[0] == "setdefault"
-                                      and (o[2] if o[0] == "via" else o)[4] is None)]
         lazy = rng.random() < 0.12
         if lazy:
             case["init"]["lazy"] = True
@@ -120,9 +117,6 @@ class C11(Prop):
                 op = ["via", h, g.path_op(base=g.handles[h])]
             else:
                 op = g.path_op()
-            inner = op[2] if op[0] == "via" else op
-            if inner[0] == "setdefault" and inner[4] is None:
-                continue
             handles[side] = g.handles
             post.append([side, op])
         return {"fs": case["fs"], "init": case["init"], "pre": pre, "into": into, "post": post}
